@@ -11,6 +11,6 @@ CONSTANTS
   EarlyPMT = TRUE
   StartLike = FALSE
   Dev = {}
-INVARIANTS C20_RewindFresh
+INVARIANTS C20_RewindFresh C20_NoSeekClean
 VIEW View
 CHECK_DEADLOCK FALSE
